@@ -29,8 +29,8 @@ def via_for(extra: dict | None) -> str:
     return "attr" if extra and ({"level", "message", "self"} & set(extra)) else "kwargs"
 
 
-def log_spec(n: int, level: str, text: str, extra: dict | None) -> dict:
-    return {"id": n, "level": level, "text": text, "extra": extra, "via": via_for(extra)}
+def log_spec(n: int, level: str, text: str, extra: dict | None, api: str = "ctx") -> dict:
+    return {"id": n, "level": level, "text": text, "extra": extra, "via": via_for(extra), "api": api}
 
 
 def user_extras(msg) -> dict:
@@ -60,7 +60,8 @@ def order_prog(script: dict, rng) -> tuple[dict, dict]:
         for _ in range(cnt):
             counter[0] += 1
             n = counter[0]
-            sp = log_spec(n, rng.choice(LEVELS), f"#{n}# " + TEXTS[rng.choice(tkeys)], EXTRAS[rng.choice(xkeys)])
+            sp = log_spec(n, rng.choice(LEVELS), f"#{n}# " + TEXTS[rng.choice(tkeys)], EXTRAS[rng.choice(xkeys)],
+                          api=rng.choice(["ctx", "out"]))          # "out" only takes effect inside process() steps
             specs[n] = sp
             out.append(sp)
         return out
@@ -181,7 +182,7 @@ def content_case_script(case: dict) -> tuple[dict, dict]:
 def run_content_case(world, case: dict, x: int) -> dict:
     script, place = content_case_script(case)
     text = TEXTS[case["txt"]]
-    spec = log_spec(1, case["lvl"], text, EXTRAS[case["extra"]])
+    spec = log_spec(1, case["lvl"], text, EXTRAS[case["extra"]], api=case.get("via", "ctx"))
     tail = place["slot"] == "tail"
     step1 = {"pre": [spec] if place["slot"] == "pre" else [], "act": "emit",
              "post": [spec] if place["slot"] in ("post", "tail") else [], "md": False,
